@@ -112,6 +112,7 @@ func c15Seed(spec *world.Spec, n int, sharedIDs bool) {
 		spec.Requests = append(spec.Requests,
 			world.RequestSpec{ID: "seed-done-post-" + tk, AppID: sp.AppID, RelayState: "rs-dp-" + tk, ACS: sp.ACS[0].Location, Binding: sp.ACS[0].Binding, AuthRequestID: rid("dp"), UserID: u.UserID, Done: true},
 			world.RequestSpec{ID: "seed-done-redirect-" + tk, AppID: sp.AppID, RelayState: "rs-dr-" + tk, ACS: sp.ACS[1].Location, Binding: sp.ACS[1].Binding, AuthRequestID: rid("dr"), UserID: u.UserID, Done: true},
+			world.RequestSpec{ID: "seed-done-body-" + tk, AppID: sp.AppID, RelayState: "rs-db-" + tk, ACS: "", Binding: world.BindPost, AuthRequestID: rid("db"), UserID: u.UserID, Done: true},
 			world.RequestSpec{ID: "seed-pending-" + tk, AppID: sp.AppID, RelayState: "rs-p-" + tk, ACS: sp.ACS[0].Location, Binding: sp.ACS[0].Binding, AuthRequestID: rid("p"), UserID: u.UserID})
 	}
 }
@@ -284,6 +285,30 @@ func c15ClientOpt(w *world.World, spec world.Spec, i int, ops []string, yield in
 				cc.add(v)
 			}
 			_ = d
+		case "cb-done-body", "sso-refused-body":
+			// replies that are written into the HTTP body as they are (no consumer URL is known): a stored request without one,
+			// and a request of an issuer nobody registered
+			var rep obs.Reply
+			wantID := ""
+			if op == "cb-done-body" {
+				rep, _, _ = do(op, callbackReq(spec.IdP, "seed-done-body-"+tk))
+				wantID = w.Store.Request("seed-done-body-" + tk).S.AuthRequestID
+			} else {
+				a := spsim.NewAuthnReq(reqID, "https://unregistered-"+tk+".example/metadata")
+				hr, _, _ := spsim.Encode(spec.IdP.Route("sso"), wr(a.Tree(plainStyle)), spsim.Transport{Binding: "post", Plus: true, Encoding: A, RelayState: relay}, nil)
+				rep, _, _ = do(op, hr)
+				wantID = reqID
+			}
+			d := obs.Decode(rep)
+			r := obs.ReadResponse(obs.FindResponse(d.Root()))
+			switch {
+			case r == nil:
+				cc.add(ev.V("C15/body-reply", "client %d %s: status %d, no SAML Response in the body: %s", i, op, rep.Status, short(string(rep.Body), 100)))
+			case r.InResponseTo != wantID || r.Issuer != entity:
+				cc.add(ev.V("C15/body-reply-mixed-up", "client %d %s: InResponseTo %q Issuer %q, own: %q %q", i, op, r.InResponseTo, r.Issuer, wantID, entity))
+			case op == "cb-done-body" && (!r.Success() || len(r.Assertions) != 1 || r.Assertions[0].NameID != user.Username):
+				cc.add(ev.V("C15/body-reply-mixed-up", "client %d %s: status %s, not the assertion about %q", i, op, r.Status, user.Username))
+			}
 		case "cb-done-post", "cb-done-redirect", "cb-pending":
 			// callbacks on requests seeded for this session (see c15Seed)
 			id := "seed-" + strings.TrimPrefix(op, "cb-") + "-" + tk
